@@ -10,15 +10,20 @@ trap 'rm -rf "$TMP"' EXIT
 rsync -a --exclude .git /repo/ "$TMP/repo/"
 cp bin/vcgo "$TMP/vcgo"
 export SEED_SRC="$TMP/repo" VCGO_BIN="$TMP/vcgo"
-ls seeded | grep -E '^C[0-9]+-[a-z]$' > "$TMP/list"
+# order: by round (suffix letter), then property - an interrupted run has covered whole rounds
+ls seeded | grep -E '^C[0-9]+-[a-z]$' | awk -F- '{print $2, $0}' | sort | awk '{print $2}' > "$TMP/list"
+[ -n "${SELFTEST_ONLY:-}" ] && grep -E "$SELFTEST_ONLY" "$TMP/list" > "$TMP/list2" && mv "$TMP/list2" "$TMP/list"
+: > "$OUT.partial"
 run_one() {
   s="$1"; prop="${s%%-*}"
   :
   r=$(scripts/seed_check.sh "$s" "$prop" 2>&1 | tail -1)
   echo "$s $r"
+  echo "$s $r" >> /verif/seeded/SELFTEST.txt.partial
 }
 export -f run_one
 xargs -a "$TMP/list" -P "$J" -I{} bash -c 'run_one {}' > "$TMP/res"
 sort "$TMP/res" > "$OUT"
+rm -f "$OUT.partial"
 echo "caught: $(grep -c 'check_exit=1' "$OUT") of $(wc -l < "$OUT")"
 grep -v 'check_exit=1' "$OUT"
